@@ -613,7 +613,7 @@ def wl_primitives(ctx, rng, idx, n):
     vals = list(VARINT_EDGES)
     for e in VARINT_EDGES:
         vals += [max(0, min(2**64 - 1, e + d)) for d in (-2, 2, rng.randrange(-200, 200))]
-    vals += [rng.getrandbits(rng.randrange(1, 65)) for _ in range(20000 if quick else 120000)]
+    vals += [rng.getrandbits(rng.randrange(1, 65)) for _ in range(12000 if quick else 100000)]
     for v in vals:
         o = outcome(h.encode_varint, v)
         if o[0] == "ok":
@@ -763,7 +763,7 @@ def wl_envelopes(ctx, rng, idx, n):
     outcome(NetworkEnvelope.parse, BytesIO(bytes.fromhex(p2p._VERACK)))
     outcome(NetworkEnvelope.parse, BytesIO(bytes.fromhex(p2p._VERSION_ENV)))
     # negative workloads on sampled envelopes
-    nsamples = 150 if quick else 900
+    nsamples = 90 if quick else 700
     for si in range(nsamples):
         if ctx.out_of_time():
             return
@@ -822,7 +822,7 @@ def wl_messages(ctx, rng, idx, n):
     from buidl.block import Block
 
     quick = ctx.tier == "quick"
-    reps = 900 if quick else 5400
+    reps = 600 if quick else 4500
     # version
     for r in range(reps):
         ua_len = rng.choice([0, 1, 27, 0xFC, 0xFD, 0xFE, 300]) if r % 3 == 0 else rng.randrange(0, 40)
